@@ -735,3 +735,105 @@ def rule_cache_immut(ctx):
         for nm, fn in shared.items():
             r.ok(f"{g.qualname}[{nm} <- {fn}]", sample={"caller": g.qualname, "shared value": nm, "from": fn + "()", "mutations": "none"})
     return r
+
+
+# ---------------------------------------------------------------- cache-typed
+def rule_cache_typed(ctx):
+    r = RuleResult(
+        "cache-typed",
+        "functools.cache / lru_cache key their entries by argument *equality*, and True == 1, False == 0: a memoised function "
+        "that treats a parameter differently according to its identity with True / False (`p is True`, isinstance(p, bool)) "
+        "must be declared lru_cache(typed=True) — otherwise a call with 1 is served the entry computed for True (and vice "
+        "versa), depending on which came first",
+    )
+    n = 0
+    for f in ctx.prog.all_functions(nested=False):
+        if f.is_alias or isinstance(f.node, ast.Lambda) or not f.module.name.startswith("quimb"):
+            continue
+        decs = getattr(f.node, "decorator_list", [])
+        cached = None
+        for d in decs:
+            name = dotted(d.func) if isinstance(d, ast.Call) else dotted(d)
+            if name and name.split(".")[-1] in ("cache", "lru_cache"):
+                typed = isinstance(d, ast.Call) and any(k.arg == "typed" and const_value(k.value, None) is True for k in d.keywords)
+                cached = (name, typed)
+        if cached is None:
+            continue
+        n += 1
+        sensitive = []
+        for c in ast.walk(f.node):
+            if isinstance(c, ast.Compare) and len(c.ops) == 1 and isinstance(c.ops[0], (ast.Is, ast.IsNot)):
+                l, rr = c.left, c.comparators[0]
+                for a, b in ((l, rr), (rr, l)):
+                    if isinstance(a, ast.Name) and a.id in f.params and isinstance(b, ast.Constant) and (b.value is True or b.value is False):
+                        sensitive.append((a.id, src_of(c), c.lineno))
+            if isinstance(c, ast.Call) and isinstance(c.func, ast.Name) and c.func.id == "isinstance" and len(c.args) == 2 \
+                    and isinstance(c.args[0], ast.Name) and c.args[0].id in f.params and "bool" in src_of(c.args[1]):
+                sensitive.append((c.args[0].id, src_of(c), c.lineno))
+        construct = f.qualname
+        if sensitive and not cached[1]:
+            p_, test, line = sensitive[0]
+            r.bad(Finding(
+                "cache-typed", construct,
+                f"memoised with {cached[0]} (untyped) but `{test}` (line {line}) distinguishes {p_}=True from {p_}=1: the two calls share one cache entry, "
+                "so the result for one is returned for the other", where=f"{f.module.relpath}:{f.lineno}", operand=p_))
+        else:
+            r.ok(construct, sample={"function": f.qualname, "cache": cached[0], "typed": cached[1], "bool-sensitive parameters": sorted({s_[0] for s_ in sensitive})}, nontrivial=bool(sensitive))
+    r.floor(n, 5, "memoised functions")
+    return r
+
+
+# ---------------------------------------------------------- alias-normalised
+def rule_alias_normalised(ctx):
+    r = RuleResult(
+        "alias-normalised",
+        "the alias table _ABSORB_MAP maps strings to absorb modes, among them a string alias of None (singular values "
+        "returned separately): outside decomp.py's post-normalisation code, a function that branches on `absorb is None` "
+        "must first normalise its raw `absorb` argument (through _ABSORB_MAP / parse_method_absorb) — otherwise the alias "
+        "takes the other branch and the separately returned singular values are dropped",
+    )
+    m = ctx.prog.module(DECOMP)
+    env = ConstEnv(m)
+    amap = env.get("_ABSORB_MAP")
+    none_aliases = sorted(k for k, v in amap.items() if isinstance(k, str) and v is None) if isinstance(amap, dict) else None
+    if none_aliases is None:
+        raise AnalysisError("_ABSORB_MAP could not be evaluated statically")
+    if not none_aliases:
+        r.ok("_ABSORB_MAP", sample={"string aliases of None": []}, nontrivial=False)
+        return r
+    n = 0
+    for f in ctx.prog.all_functions(nested=False):
+        if f.is_alias or isinstance(f.node, ast.Lambda) or not f.module.name.startswith("quimb.tensor") or f.module.name == DECOMP:
+            continue
+        if "absorb" not in f.params:
+            continue
+        tests = [c for c in ast.walk(f.node) if isinstance(c, ast.Compare) and isinstance(c.left, ast.Name) and c.left.id == "absorb"
+                 and isinstance(c.ops[0], (ast.Is, ast.IsNot)) and const_value(c.comparators[0], 0) is None]
+        if not tests:
+            continue
+        n += 1
+        first = min(t.lineno for t in tests)
+        normalised = False
+        for a in ast.walk(f.node):
+            if isinstance(a, ast.Assign) and any(isinstance(t, ast.Name) and t.id == "absorb" for t0 in a.targets for t in ast.walk(t0)) and a.lineno < first:
+                txt = src_of(a.value)
+                if "_ABSORB_MAP" in txt or "parse_method_absorb" in txt:
+                    normalised = True
+            # `if <normalised test>: absorb = None`
+            if isinstance(a, ast.If) and a.lineno < first and "_ABSORB_MAP" in src_of(a.test) and any(
+                    isinstance(x, ast.Assign) and any(isinstance(t, ast.Name) and t.id == "absorb" for t in x.targets) and const_value(x.value, 0) is None for x in a.body):
+                normalised = True
+        # tests that only *default* the option (`if absorb is None: absorb = ...`) do not depend on aliases
+        only_default = all(
+            any(isinstance(iff, ast.If) and iff.test is t and all(isinstance(s_, ast.Assign) and any(isinstance(tt, ast.Name) and tt.id == "absorb" for tt in s_.targets) for s_ in iff.body) for iff in ast.walk(f.node))
+            for t in tests)
+        if normalised or only_default:
+            r.ok(f.qualname, sample={"function": f.qualname, "tests `absorb is None`": len(tests), "normalised first": normalised})
+        else:
+            r.bad(Finding(
+                "alias-normalised", f.qualname,
+                f"branches on `absorb is None` (line {first}) using the raw argument, but {none_aliases} are accepted aliases of None: with "
+                f"absorb={none_aliases[0]!r} the decomposition returns the singular values separately while this function takes the 'absorbed' branch and drops them",
+                where=f"{f.module.relpath}:{first}", operand="absorb"))
+    r.floor(n, 1, "functions testing `absorb is None` outside decomp.py")
+    return r
